@@ -379,3 +379,24 @@ Proof.
   unfold step; cbn [store cands log run_op lab_cid lab_write o_store o_cand o_applied]. repeat split.
   intros x. unfold upd. destruct (x =? c) eqn:E; [apply N.eqb_eq in E; subst; reflexivity|reflexivity].
 Qed.
+
+(* a call that returns nil is an applied write: success is reported only for a write that took effect,
+   and an unknown-outcome commit (storage.ErrUncertainResult, whether it landed or not) or a failed one
+   is only ever reported as an error *)
+Lemma ok_implies_applied s l :
+  (match l with LCreate _ _ _ _ _ | LUpdate _ _ _ _ _ => True | _ => False end) ->
+  o_res (run_op s l) = ROk -> o_applied (run_op s l) = true.
+Proof.
+  destruct l as [c e t|c h b e t|c h b e t|c]; cbn [run_op]; try contradiction; intros _.
+  - unfold do_create. destruct e, (store s), t; simpl; congruence.
+  - unfold do_update. destruct (tso (cands s c) =? 0); [discriminate|].
+    destruct e; simpl; try discriminate; destruct (cas_holds (store s) (lastVal (cands s c))), t; simpl; congruence.
+Qed.
+
+Lemma unknown_never_success st k h b t :
+  o_res (do_create st k h b CUnknown t) <> ROk /\ o_res (do_update st k h b CUnknown t) <> ROk /\
+  o_res (do_create st k h b CErr t) <> ROk /\ o_res (do_update st k h b CErr t) <> ROk.
+Proof.
+  unfold do_create, do_update. repeat split; destruct st; simpl; try discriminate;
+    destruct (tso k =? 0); try discriminate; destruct (beqb (rbytes l) (lastVal k)); discriminate.
+Qed.
